@@ -18,32 +18,57 @@ Definition opt_ok {A} (f : A -> bool) (o : option A) : bool := match o with Some
 Lemma uprops_ok_prefix a b : is_prefix a b -> uprops_ok b = true -> uprops_ok a = true.
 Proof. intros [tl ->]. unfold uprops_ok. rewrite forallb_app. intros H. now apply andb_true_iff in H as [? _]. Qed.
 
-(* what encode_opt_props wrote: a prefix of the user properties, then the reason string or nothing *)
+(* size of all the diagnostics *)
+Definition diag_size (ups : uprops) (reason : option bytes) : N := es_uprops ups + eps es_bytes reason.
+
+Lemma esop_full ups reason lim : diag_size ups reason <= lim -> encoded_size_opt_props ups reason lim = diag_size ups reason.
+Proof.
+  unfold diag_size. revert lim. induction ups as [|p r IH]; intros lim H; cbn [encoded_size_opt_props es_uprops] in *.
+  - destruct reason as [s|]; cbn [eps] in *; [|reflexivity].
+    replace (1 + es_bytes s <=? lim) with true by lia. lia.
+  - replace (lim <? 1 + es_uprop p) with false by lia. rewrite IH by lia. lia.
+Qed.
+
+Lemma diag_size_0 ups reason : diag_size ups reason = 0 -> ups = [] /\ reason = None.
+Proof.
+  unfold diag_size. destruct ups as [|p r]; cbn [es_uprops]; [|lia].
+  destruct reason; cbn [eps]; [lia|auto].
+Qed.
+
+(* what encode_opt_props wrote: a prefix of the user properties, then the reason string or nothing;
+   everything if it fits *)
 Lemma eop_items tbl ups reason size bs o1 o2 :
   tbl P_USER = Some (KPair, o1) -> tbl P_REASON_STRING = Some (KStr, o2) ->
   encode_opt_props ups reason size = (bs, Ok tt) ->
   exists ups' reason', is_prefix ups' ups /\ (reason' = reason \/ reason' = None) /\
-    bs = enc_items tbl (uitems ups' ++ oitemB P_REASON_STRING reason' ++ []).
+    bs = enc_items tbl (uitems ups' ++ oitemB P_REASON_STRING reason' ++ []) /\
+    (diag_size ups reason <= size -> ups' = ups /\ reason' = reason).
 Proof.
   intros Eu Er. revert size bs. induction ups as [|p r IH]; intros size bs H; cbn [encode_opt_props] in H.
   - exists []. destruct reason as [s|].
-    + destruct (len s <? size).
+    + destruct (len s <? size) eqn:Els.
       * exists (Some s). split; [apply is_prefix_nil|]. split; [now left|].
         apply wseq_inv in H as (x & y & E1 & E2 & ->). apply wput_inv in E1. subst x.
         apply w_bytes_inv in E2 as [_ ->]. cbn. unfold enc_item, tkind. cbn [fst snd]. rewrite Er.
         now rewrite app_nil_r.
-      * exists None. apply wnop_inv in H. subst. split; [apply is_prefix_nil|]. split; [now right|reflexivity].
-    + exists None. apply wnop_inv in H. subst. split; [apply is_prefix_nil|]. split; [now left|reflexivity].
-  - destruct (size <? _).
-    + apply wnop_inv in H. subst. exists [], None. split; [apply is_prefix_nil|]. split; [now right|reflexivity].
+      * exists None. apply wnop_inv in H. subst. split; [apply is_prefix_nil|]. split; [now right|].
+        split; [reflexivity|]. unfold diag_size, es_bytes. cbn [es_uprops eps]. lia.
+    + exists None. apply wnop_inv in H. subst. split; [apply is_prefix_nil|]. split; [now left|].
+      split; [reflexivity|auto].
+  - destruct (size <? _) eqn:Esz.
+    + apply wnop_inv in H. subst. exists [], None. split; [apply is_prefix_nil|]. split; [now right|].
+      split; [reflexivity|]. unfold diag_size. cbn [es_uprops]. unfold es_uprop. lia.
     + apply wseq_inv in H as (x & y & E1 & E2 & ->). apply wput_inv in E1. subst x.
       apply wseq_inv in E2 as (x & y' & E1 & E2 & ->).
-      apply IH in E2 as (ups' & reason' & Hp & Hr & ->).
+      apply IH in E2 as (ups' & reason' & Hp & Hr & -> & Hfull).
       exists (p :: ups'), reason'. split; [now apply is_prefix_cons|]. split; [assumption|].
-      unfold w_uprop in E1. apply wseq_inv in E1 as (a & b & Ea & Eb & ->).
-      apply w_bytes_inv in Ea as [_ ->]. apply w_bytes_inv in Eb as [_ ->].
-      cbn [uitems map app]. rewrite enc_items_cons. change (map upair ups') with (uitems ups').
-      rewrite app_assoc. f_equal. unfold enc_item, tkind, upair. cbn [fst snd]. rewrite Eu. reflexivity.
+      split.
+      * unfold w_uprop in E1. apply wseq_inv in E1 as (a & b & Ea & Eb & ->).
+        apply w_bytes_inv in Ea as [_ ->]. apply w_bytes_inv in Eb as [_ ->].
+        cbn [uitems map app]. rewrite enc_items_cons. change (map upair ups') with (uitems ups').
+        rewrite app_assoc. f_equal. unfold enc_item, tkind, upair. cbn [fst snd]. rewrite Eu. reflexivity.
+      * intros Hf. destruct Hfull as [-> ->]; [|auto].
+        unfold diag_size in *. cbn [es_uprops] in Hf. unfold es_uprop in Hf. lia.
 Qed.
 
 (* ------------------------------------------------------------------ ack_props *)
@@ -69,7 +94,8 @@ Lemma ack_props_roundtrip ups reason lim bs :
   ack_props_encode ups reason (ack_props_encoded_size ups reason lim) = (bs, Ok tt) ->
   bs <> [] /\
   exists ups' reason', is_prefix ups' ups /\ (reason' = reason \/ reason' = None) /\
-    forall r, ack_props_decode (bs ++ r) = Ok ((ups', reason'), r).
+    (forall r, ack_props_decode (bs ++ r) = Ok ((ups', reason'), r)) /\
+    (4 + diag_size ups reason <= lim -> ups' = ups /\ reason' = reason).
 Proof.
   intros Hl Hu Hr H.
   assert (Hne : bs <> []).
@@ -82,18 +108,22 @@ Proof.
     replace (0 + 0 mod 128 * 1) with 0 by reflexivity. unfold split_to. cbn [N.to_nat firstn skipn]. reflexivity. }
   unfold ack_props_encoded_size, ack_props_encode in H.
   destruct (lim <? 4) eqn:E4.
-  { cbn in H. injection H as <-. exists [], None. split; [apply is_prefix_nil|]. split; [now right|]. exact Hzero. }
+  { cbn in H. injection H as <-. exists [], None. split; [apply is_prefix_nil|]. split; [now right|].
+    split; [exact Hzero|lia]. }
   set (l := encoded_size_opt_props ups reason (lim - 4)) in *.
   assert (Hle : l <= lim - 4) by apply esop_le.
   pose proof (var_int_len_pos l) as Hv.
   replace (var_int_len l + l =? 0) with false in H by lia.
   destruct (var_int_len l + l =? 1) eqn:E1.
-  { cbn in H. injection H as <-. exists [], None. split; [apply is_prefix_nil|]. split; [now right|]. exact Hzero. }
+  { cbn in H. injection H as <-. exists [], None. split; [apply is_prefix_nil|]. split; [now right|].
+    split; [exact Hzero|]. intros Hf. assert (l = 0) by lia. unfold l in *. rewrite esop_full in * by lia.
+    destruct (diag_size_0 ups reason) as [-> ->]; auto. }
   rewrite varlen_inverse' in H by lia. cbn [wlet] in H.
   apply wseq_inv in H as (vi & blk & Ev & Eb & ->). apply w_vi_inv in Ev.
   pose proof (eop_len ups reason (lim - 4) _ Eb) as Hlen. fold l in Hlen.
-  apply (eop_items tbl_ack _ _ _ _ _ _ tbl_ack_user tbl_ack_reason) in Eb as (ups' & reason' & Hp & Hr' & ->).
-  exists ups', reason'. split; [assumption|]. split; [assumption|]. intros r.
+  apply (eop_items tbl_ack _ _ _ _ _ _ tbl_ack_user tbl_ack_reason) in Eb as (ups' & reason' & Hp & Hr' & -> & Hfull).
+  exists ups', reason'. split; [assumption|]. split; [assumption|].
+  split; [|intros Hf; apply Hfull; unfold l; rewrite esop_full by lia; lia]. intros r.
   unfold ack_props_decode. rewrite <- app_assoc. rewrite (take_properties_enc l) by assumption. cbn [bind].
   rewrite props_of_enc.
   2:{ apply diag_items_wf; try reflexivity; [eapply uprops_ok_prefix; eassumption|eapply opt_ok_weaken; eassumption]. }
@@ -141,7 +171,9 @@ Lemma publish_ack_roundtrip a lim bs :
   lim <= VI_MAX -> publish_ack_ok a = true ->
   publish_ack_encode a (publish_ack_encoded_size a lim) = (bs, Ok tt) ->
   exists ups' reason', is_prefix ups' (pa_properties a) /\ (reason' = pa_reason_string a \/ reason' = None) /\
-    publish_ack_decode bs = Ok (mkPublishAck (pa_packet_id a) (pa_reason_code a) ups' reason').
+    publish_ack_decode bs = Ok (mkPublishAck (pa_packet_id a) (pa_reason_code a) ups' reason') /\
+    (11 + diag_size (pa_properties a) (pa_reason_string a) <= lim ->
+     ups' = pa_properties a /\ reason' = pa_reason_string a).
 Proof.
   intros Hl Hok H. unfold publish_ack_ok, id_ok in Hok.
   apply andb_true_iff in Hok as [Hok Hrs]. apply andb_true_iff in Hok as [Hok Hup].
@@ -152,8 +184,9 @@ Proof.
   apply wseq_inv in H as (x & y & E1 & E2 & ->). apply wput_inv in E1. subst x.
   apply wseq_inv in E2 as (x & ap & E1 & E2 & ->). apply wput_inv in E1. subst x.
   pose proof (reduce_limit_le lim (3 + 4)).
-  apply ack_props_roundtrip in E2 as (Hne & ups' & reason' & Hp & Hr & Hdec); [|lia|assumption|assumption].
+  apply ack_props_roundtrip in E2 as (Hne & ups' & reason' & Hp & Hr & Hdec & Hfull); [|lia|assumption|assumption].
   exists ups', reason'. split; [assumption|]. split; [assumption|].
+  split; [|intros Hf; apply Hfull; unfold reduce_limit; replace (lim <? 3 + 4) with false by lia; lia].
   unfold publish_ack_decode. change ([pa_packet_id a / 256; pa_packet_id a mod 256] ++ [pa_reason_code a] ++ ap)
     with (b_u16 (pa_packet_id a) ++ (pa_reason_code a :: ap)).
   rewrite dec_nz16_b by lia. cbn [bind]. rewrite Hrc. cbn [ensure bind].
@@ -165,7 +198,9 @@ Lemma publish_ack2_roundtrip a lim bs :
   lim <= VI_MAX -> publish_ack2_ok a = true ->
   publish_ack2_encode a (publish_ack2_encoded_size a lim) = (bs, Ok tt) ->
   exists ups' reason', is_prefix ups' (pa2_properties a) /\ (reason' = pa2_reason_string a \/ reason' = None) /\
-    publish_ack2_decode bs = Ok (mkPublishAck2 (pa2_packet_id a) (pa2_reason_code a) ups' reason').
+    publish_ack2_decode bs = Ok (mkPublishAck2 (pa2_packet_id a) (pa2_reason_code a) ups' reason') /\
+    (11 + diag_size (pa2_properties a) (pa2_reason_string a) <= lim ->
+     ups' = pa2_properties a /\ reason' = pa2_reason_string a).
 Proof.
   intros Hl Hok H. unfold publish_ack2_ok, id_ok in Hok.
   apply andb_true_iff in Hok as [Hok Hrs]. apply andb_true_iff in Hok as [Hok Hup].
@@ -176,8 +211,9 @@ Proof.
   apply wseq_inv in H as (x & y & E1 & E2 & ->). apply wput_inv in E1. subst x.
   apply wseq_inv in E2 as (x & ap & E1 & E2 & ->). apply wput_inv in E1. subst x.
   pose proof (reduce_limit_le lim (3 + 4)).
-  apply ack_props_roundtrip in E2 as (Hne & ups' & reason' & Hp & Hr & Hdec); [|lia|assumption|assumption].
+  apply ack_props_roundtrip in E2 as (Hne & ups' & reason' & Hp & Hr & Hdec & Hfull); [|lia|assumption|assumption].
   exists ups', reason'. split; [assumption|]. split; [assumption|].
+  split; [|intros Hf; apply Hfull; unfold reduce_limit; replace (lim <? 3 + 4) with false by lia; lia].
   unfold publish_ack2_decode. change ([pa2_packet_id a / 256; pa2_packet_id a mod 256] ++ [pa2_reason_code a] ++ ap)
     with (b_u16 (pa2_packet_id a) ++ (pa2_reason_code a :: ap)).
   rewrite dec_nz16_b by lia. cbn [bind]. rewrite Hrc. cbn [ensure bind].
@@ -203,7 +239,9 @@ Lemma subscribe_ack_roundtrip a lim bs :
   lim <= VI_MAX -> subscribe_ack_encoded_size a lim <= lim -> subscribe_ack_ok a = true ->
   subscribe_ack_encode a (subscribe_ack_encoded_size a lim) = (bs, Ok tt) ->
   exists ups' reason', is_prefix ups' (sa_properties a) /\ (reason' = sa_reason_string a \/ reason' = None) /\
-    subscribe_ack_decode bs = Ok (mkSubscribeAck (sa_packet_id a) ups' reason' (sa_status a)).
+    subscribe_ack_decode bs = Ok (mkSubscribeAck (sa_packet_id a) ups' reason' (sa_status a)) /\
+    (6 + len (sa_status a) + diag_size (sa_properties a) (sa_reason_string a) <= lim ->
+     ups' = sa_properties a /\ reason' = sa_reason_string a).
 Proof.
   intros Hl Hs Hok H. unfold subscribe_ack_ok, id_ok in Hok.
   apply andb_true_iff in Hok as [Hok Hrs]. apply andb_true_iff in Hok as [Hok Hup].
@@ -217,8 +255,10 @@ Proof.
   apply wseq_inv in H as (x & y & E1 & E2 & ->). apply wput_inv in E1. subst x.
   apply wseq_inv in E2 as (ap & x & E1 & E2 & ->). apply wput_inv in E2. subst x.
   pose proof (reduce_limit_le lim (2 + len (sa_status a))).
-  apply ack_props_roundtrip in E1 as (Hne & ups' & reason' & Hp & Hr & Hdec); [|lia|assumption|assumption].
+  apply ack_props_roundtrip in E1 as (Hne & ups' & reason' & Hp & Hr & Hdec & Hfull); [|lia|assumption|assumption].
   exists ups', reason'. split; [assumption|]. split; [assumption|].
+  split; [|intros Hf; apply Hfull; unfold reduce_limit;
+           replace (lim <? 2 + len (sa_status a)) with false by lia; lia].
   unfold subscribe_ack_decode. change [sa_packet_id a / 256; sa_packet_id a mod 256] with (b_u16 (sa_packet_id a)).
   rewrite dec_nz16_b by lia. cbn [bind]. rewrite Hdec. cbn [bind].
   rewrite status_decode_ok by assumption. reflexivity.
@@ -228,7 +268,9 @@ Lemma unsubscribe_ack_roundtrip a lim bs :
   lim <= VI_MAX -> unsubscribe_ack_encoded_size a lim <= lim -> unsubscribe_ack_ok a = true ->
   unsubscribe_ack_encode a (unsubscribe_ack_encoded_size a lim) = (bs, Ok tt) ->
   exists ups' reason', is_prefix ups' (ua_properties a) /\ (reason' = ua_reason_string a \/ reason' = None) /\
-    unsubscribe_ack_decode bs = Ok (mkUnsubscribeAck (ua_packet_id a) ups' reason' (ua_status a)).
+    unsubscribe_ack_decode bs = Ok (mkUnsubscribeAck (ua_packet_id a) ups' reason' (ua_status a)) /\
+    (6 + len (ua_status a) + diag_size (ua_properties a) (ua_reason_string a) <= lim ->
+     ups' = ua_properties a /\ reason' = ua_reason_string a).
 Proof.
   intros Hl Hs Hok H. unfold unsubscribe_ack_ok, id_ok in Hok.
   apply andb_true_iff in Hok as [Hok Hrs]. apply andb_true_iff in Hok as [Hok Hup].
@@ -241,8 +283,10 @@ Proof.
   apply wseq_inv in H as (x & y & E1 & E2 & ->). apply wput_inv in E1. subst x.
   apply wseq_inv in E2 as (ap & x & E1 & E2 & ->). apply wput_inv in E2. subst x.
   pose proof (reduce_limit_le lim (2 + len (ua_status a))).
-  apply ack_props_roundtrip in E1 as (Hne & ups' & reason' & Hp & Hr & Hdec); [|lia|assumption|assumption].
+  apply ack_props_roundtrip in E1 as (Hne & ups' & reason' & Hp & Hr & Hdec & Hfull); [|lia|assumption|assumption].
   exists ups', reason'. split; [assumption|]. split; [assumption|].
+  split; [|intros Hf; apply Hfull; unfold reduce_limit;
+           replace (lim <? 2 + len (ua_status a)) with false by lia; lia].
   unfold unsubscribe_ack_decode. change [ua_packet_id a / 256; ua_packet_id a mod 256] with (b_u16 (ua_packet_id a)).
   rewrite dec_nz16_b by lia. cbn [bind]. rewrite Hdec. cbn [bind].
   rewrite status_decode_ok by assumption. reflexivity.
@@ -290,7 +334,8 @@ Lemma diag_bytes tbl head fixed h pl1 lim' ups reason fits hb bs :
   exists vi ups' reason' blk,
     enc_vi PL = Some vi /\ is_prefix ups' ups /\ (reason' = reason \/ reason' = None) /\
     bs = hb ++ vi ++ blk /\ len blk = PL /\
-    blk = enc_items tbl (fits ++ uitems ups' ++ oitemB P_REASON_STRING reason' ++ []).
+    blk = enc_items tbl (fits ++ uitems ups' ++ oitemB P_REASON_STRING reason' ++ []) /\
+    (diag_size ups reason <= lim' -> ups' = ups /\ reason' = reason).
 Proof.
   intros Eu Er Hhead Hh Hfl Hfi D PL size Hs H. unfold diag_encode in H.
   pose proof (var_int_len_pos PL).
@@ -308,10 +353,11 @@ Proof.
   rewrite sub_chk_ok in Eb by lia. cbn [wlet] in Eb.
   replace (size - (h + (var_int_len PL + pl1))) with D in Eb by lia.
   pose proof (eop_len ups reason lim' _ Eb) as Hly.
-  apply (eop_items tbl _ _ _ _ _ _ Eu Er) in Eb as (ups' & reason' & Hp & Hr & Ey).
+  apply (eop_items tbl _ _ _ _ _ _ Eu Er) in Eb as (ups' & reason' & Hp & Hr & Ey & Hfull).
   exists vi, ups', reason', (fx ++ y). split; [assumption|]. split; [assumption|]. split; [assumption|].
   split; [now rewrite <- !app_assoc|]. split; [rewrite len_app; lia|].
-  rewrite enc_items_app. now rewrite Hif, Ey.
+  split; [rewrite enc_items_app; now rewrite Hif, Ey|].
+  intros Hf. apply Hfull. subst D. rewrite esop_full by assumption. lia.
 Qed.
 
 Ltac eval_eqb :=
@@ -323,11 +369,6 @@ Ltac eval_eqb :=
     | false => change (a =? b) with false
     end
   end; cbv beta iota.
-
-#[export] Hint Rewrite bag_n_oitemN bag_n_oitemB bag_n_uitems bag_n_nil
-  bag_b_oitemB bag_b_oitemN bag_b_uitems bag_b_sitems bag_b_nil
-  bag_pairs_oitemN bag_pairs_oitemB bag_pairs_uitems bag_pairs_sitems bag_pairs_nil
-  bag_ns_oitemN bag_ns_oitemB bag_ns_uitems bag_ns_sitems bag_ns_nil bag_bool_eq : bag.
 
 Lemma opt_eta {A} (o : option A) : match o with Some n => Some n | None => None end = o.
 Proof. now destruct o. Qed.
@@ -345,15 +386,18 @@ Lemma disconnect_roundtrip d lim bs :
   disconnect_encode d (disconnect_encoded_size d lim) = (bs, Ok tt) ->
   exists ups' reason', is_prefix ups' (d_user_properties d) /\ (reason' = d_reason_string d \/ reason' = None) /\
     disconnect_decode bs = Ok (mkDisconnect (d_reason_code d) (d_session_expiry_interval_secs d)
-                                 (d_server_reference d) reason' ups').
+                                 (d_server_reference d) reason' ups') /\
+    (diag_size (d_user_properties d) (d_reason_string d) <=
+       reduce_limit lim (eps sz4 (d_session_expiry_interval_secs d) + eps es_bytes (d_server_reference d) + 1 + 4) ->
+     ups' = d_user_properties d /\ reason' = d_reason_string d).
 Proof.
   intros Hs Hok H. unfold disconnect_ok in Hok.
   apply andb_true_iff in Hok as [Hok Hrs]. apply andb_true_iff in Hok as [Hok Hup].
   apply andb_true_iff in Hok as [Hok Hsr]. apply andb_true_iff in Hok as [Hrc Hse].
   rewrite disconnect_is_diag in H. unfold disconnect_encoded_size in *.
-  eapply (diag_bytes tbl_disconnect) in H as (vi & ups' & reason' & blk & Ev & Hp & Hr & -> & Hlen & Hblk);
+  eapply (diag_bytes tbl_disconnect) in H as (vi & ups' & reason' & blk & Ev & Hp & Hr & -> & Hlen & Hblk & Hfull);
     [ | reflexivity | reflexivity | reflexivity | reflexivity | wlen_tac | wits_struct | exact Hs ].
-  exists ups', reason'. split; [assumption|]. split; [assumption|].
+  exists ups', reason'. split; [assumption|]. split; [assumption|]. split; [|exact Hfull].
   unfold disconnect_decode. cbn [app]. rewrite Hrc. cbn [ensure bind].
   pose proof (enc_vi_nonempty _ _ Ev) as Hne. destruct (vi ++ blk) as [|z zs] eqn:Ez.
   { destruct vi; [congruence|discriminate]. }
@@ -376,15 +420,18 @@ Lemma auth_roundtrip a lim bs :
   auth_encoded_size a lim <= VI_MAX -> auth_ok a = true ->
   auth_encode a (auth_encoded_size a lim) = (bs, Ok tt) ->
   exists ups' reason', is_prefix ups' (a_user_properties a) /\ (reason' = a_reason_string a \/ reason' = None) /\
-    auth_decode bs = Ok (mkAuth (a_reason_code a) (a_auth_method a) (a_auth_data a) reason' ups').
+    auth_decode bs = Ok (mkAuth (a_reason_code a) (a_auth_method a) (a_auth_data a) reason' ups') /\
+    (diag_size (a_user_properties a) (a_reason_string a) <=
+       reduce_limit lim (eps es_bytes (a_auth_method a) + eps es_bytes (a_auth_data a) + 1 + 4) ->
+     ups' = a_user_properties a /\ reason' = a_reason_string a).
 Proof.
   intros Hs Hok H. unfold auth_ok in Hok.
   apply andb_true_iff in Hok as [Hok Hrs]. apply andb_true_iff in Hok as [Hok Hup].
   apply andb_true_iff in Hok as [Hok Had]. apply andb_true_iff in Hok as [Hrc Ham].
   rewrite auth_is_diag in H. unfold auth_encoded_size in *.
-  eapply (diag_bytes tbl_auth) in H as (vi & ups' & reason' & blk & Ev & Hp & Hr & -> & Hlen & Hblk);
+  eapply (diag_bytes tbl_auth) in H as (vi & ups' & reason' & blk & Ev & Hp & Hr & -> & Hlen & Hblk & Hfull);
     [ | reflexivity | reflexivity | reflexivity | reflexivity | wlen_tac | wits_struct | exact Hs ].
-  exists ups', reason'. split; [assumption|]. split; [assumption|].
+  exists ups', reason'. split; [assumption|]. split; [assumption|]. split; [|exact Hfull].
   unfold auth_decode. cbn [app]. rewrite Hrc. cbn [ensure bind].
   pose proof (enc_vi_nonempty _ _ Ev) as Hne. destruct (vi ++ blk) as [|z zs] eqn:Ez.
   { destruct vi; [congruence|discriminate]. }
@@ -423,24 +470,28 @@ Definition connect_ack_with (a : connect_ack) (reason : option bytes) (ups : upr
     (ca_auth_data a) reason ups.
 
 Lemma dflt_bool_true (b : bool) :
-  dflt (option_map (fun n => n =? 1) (match (if Bool.eqb b true then None else Some (b2n b)) with
-                                       | Some n => Some n | None => None end)) true = b.
+  dflt (option_map (fun n => n =? 1) (if Bool.eqb b true then None else Some (b2n b))) true = b.
+Proof. destruct b; reflexivity. Qed.
+Lemma dflt_bool_false (b : bool) :
+  dflt (option_map (fun n => n =? 1) (if Bool.eqb b false then None else Some (b2n b))) false = b.
 Proof. destruct b; reflexivity. Qed.
 
 Lemma connect_ack_roundtrip a lim bs :
   connect_ack_encoded_size a lim <= VI_MAX -> connect_ack_ok a = true ->
   connect_ack_encode a (connect_ack_encoded_size a lim) = (bs, Ok tt) ->
   exists ups' reason', is_prefix ups' (ca_user_properties a) /\ (reason' = ca_reason_string a \/ reason' = None) /\
-    connect_ack_decode bs = Ok (connect_ack_with a reason' ups').
+    connect_ack_decode bs = Ok (connect_ack_with a reason' ups') /\
+    (diag_size (ca_user_properties a) (ca_reason_string a) <= reduce_limit lim (2 + 4 + connect_ack_fixed_len a) ->
+     ups' = ca_user_properties a /\ reason' = ca_reason_string a).
 Proof.
   intros Hs Hok H. unfold connect_ack_ok in Hok.
   repeat match type of Hok with (_ && _ = true) =>
     let H' := fresh "Hk" in apply andb_true_iff in Hok as [Hok H'] end.
   rewrite connect_ack_is_diag in H. rewrite connect_ack_size_eq in *. cbv zeta in *.
-  eapply (diag_bytes tbl_connack) in H as (vi & ups' & reason' & blk & Ev & Hp & Hr & -> & Hlen & Hblk);
+  eapply (diag_bytes tbl_connack) in H as (vi & ups' & reason' & blk & Ev & Hp & Hr & -> & Hlen & Hblk & Hfull);
     [ | reflexivity | reflexivity | reflexivity | reflexivity | apply connect_ack_fixed_wlen
       | unfold connect_ack_fixed; wits_struct | exact Hs ].
-  exists ups', reason'. split; [assumption|]. split; [assumption|].
+  exists ups', reason'. split; [assumption|]. split; [assumption|]. split; [|exact Hfull].
   unfold connect_ack_decode. cbn [app].
   replace (b2n (ca_session_present a) <=? 1) with true by (destruct (ca_session_present a); reflexivity).
   cbn [ensure bind]. rewrite Hok. cbn [ensure bind].
@@ -459,7 +510,7 @@ Proof.
       all: try (intros n E;
                 match goal with
                 | Hx : opt_ok _ ?o = true |- _ =>
-                  match type of E with o = Some _ => rewrite E in Hx; cbn [opt_ok pval_ok] in *; exact Hx end
+                  match type of E with o = Some _ => rewrite E in Hx; exact Hx end
                 end).
       all: cbn [pval_ok]; intros n E.
       all: match type of E with (if ?c then _ else _) = _ => destruct c eqn:E' end; try discriminate;
@@ -472,4 +523,166 @@ Proof.
   - unfold RECEIVE_MAX_DEFAULT. destruct (ca_receive_max a =? 65535) eqn:E; cbn [dflt]; lia.
   - unfold qos_ok, mem in *. cbn [existsb] in *. destruct (ca_max_qos a <? 2) eqn:E; cbn [dflt]; lia.
   - destruct (ca_topic_alias_max a =? 0) eqn:E; cbn [dflt]; lia.
+Qed.
+
+(* ================================================================== C09: only diagnostics are dropped *)
+Definition diag_ups (p : packet) : uprops :=
+  match p with
+  | ConnectAck a => ca_user_properties a
+  | PublishAck a | PublishReceived a => pa_properties a
+  | PublishRelease a | PublishComplete a => pa2_properties a
+  | SubscribeAck a => sa_properties a
+  | UnsubscribeAck a => ua_properties a
+  | Disconnect d => d_user_properties d
+  | Auth a => a_user_properties a
+  | _ => []
+  end.
+Definition diag_reason (p : packet) : option bytes :=
+  match p with
+  | ConnectAck a => ca_reason_string a
+  | PublishAck a | PublishReceived a => pa_reason_string a
+  | PublishRelease a | PublishComplete a => pa2_reason_string a
+  | SubscribeAck a => sa_reason_string a
+  | UnsubscribeAck a => ua_reason_string a
+  | Disconnect d => d_reason_string d
+  | Auth a => a_reason_string a
+  | _ => None
+  end.
+(* p with its diagnostics replaced; every other field is kept *)
+Definition with_diag (p : packet) (ups : uprops) (reason : option bytes) : packet :=
+  match p with
+  | ConnectAck a => ConnectAck (connect_ack_with a reason ups)
+  | PublishAck a => PublishAck (mkPublishAck (pa_packet_id a) (pa_reason_code a) ups reason)
+  | PublishReceived a => PublishReceived (mkPublishAck (pa_packet_id a) (pa_reason_code a) ups reason)
+  | PublishRelease a => PublishRelease (mkPublishAck2 (pa2_packet_id a) (pa2_reason_code a) ups reason)
+  | PublishComplete a => PublishComplete (mkPublishAck2 (pa2_packet_id a) (pa2_reason_code a) ups reason)
+  | SubscribeAck a => SubscribeAck (mkSubscribeAck (sa_packet_id a) ups reason (sa_status a))
+  | UnsubscribeAck a => UnsubscribeAck (mkUnsubscribeAck (ua_packet_id a) ups reason (ua_status a))
+  | Disconnect d =>
+    Disconnect (mkDisconnect (d_reason_code d) (d_session_expiry_interval_secs d) (d_server_reference d) reason ups)
+  | Auth a => Auth (mkAuth (a_reason_code a) (a_auth_method a) (a_auth_data a) reason ups)
+  | _ => p
+  end.
+(* encoding domain of the packets that carry droppable diagnostics *)
+Definition diag_packet_ok (p : packet) : bool :=
+  match p with
+  | ConnectAck a => connect_ack_ok a
+  | PublishAck a | PublishReceived a => publish_ack_ok a
+  | PublishRelease a | PublishComplete a => publish_ack2_ok a
+  | SubscribeAck a => subscribe_ack_ok a
+  | UnsubscribeAck a => unsubscribe_ack_ok a
+  | Disconnect d => disconnect_ok d
+  | Auth a => auth_ok a
+  | _ => false
+  end.
+
+Lemma with_diag_id p : diag_packet_ok p = true -> with_diag p (diag_ups p) (diag_reason p) = p.
+Proof. destruct p; try discriminate; intros _; cbn; try reflexivity; destruct c || destruct a || destruct s || destruct u || destruct d; reflexivity. Qed.
+
+(* all the diagnostics fit under the limit L *)
+Definition diag_fits (q : packet) (L : N) : Prop :=
+  match q with
+  | ConnectAck a =>
+    diag_size (ca_user_properties a) (ca_reason_string a) <= reduce_limit L (2 + 4 + connect_ack_fixed_len a)
+  | PublishAck a | PublishReceived a => 11 + diag_size (pa_properties a) (pa_reason_string a) <= L
+  | PublishRelease a | PublishComplete a => 11 + diag_size (pa2_properties a) (pa2_reason_string a) <= L
+  | SubscribeAck a => 6 + len (sa_status a) + diag_size (sa_properties a) (sa_reason_string a) <= L
+  | UnsubscribeAck a => 6 + len (ua_status a) + diag_size (ua_properties a) (ua_reason_string a) <= L
+  | Disconnect d =>
+    diag_size (d_user_properties d) (d_reason_string d) <=
+    reduce_limit L (eps sz4 (d_session_expiry_interval_secs d) + eps es_bytes (d_server_reference d) + 1 + 4)
+  | Auth a =>
+    diag_size (a_user_properties a) (a_reason_string a) <=
+    reduce_limit L (eps es_bytes (a_auth_method a) + eps es_bytes (a_auth_data a) + 1 + 4)
+  | _ => True
+  end.
+
+Lemma diag_core q L body :
+  L <= VI_MAX -> packet_encoded_size q L <= L -> diag_packet_ok q = true ->
+  body_encode q (packet_encoded_size q L) = (body, Ok tt) ->
+  exists ups' reason', is_prefix ups' (diag_ups q) /\ (reason' = diag_reason q \/ reason' = None) /\
+    decode_packet (first_byte q) body = Ok (with_diag q ups' reason') /\
+    (diag_fits q L -> ups' = diag_ups q /\ reason' = diag_reason q).
+Proof.
+  intros HL Hs Hok H.
+  destruct q; try discriminate; cbn [diag_packet_ok body_encode packet_encoded_size first_byte diag_ups
+    diag_reason with_diag diag_fits] in *.
+  - apply connect_ack_roundtrip in H as (u' & r' & ? & ? & E & F); [|lia|assumption].
+    exists u', r'. rewrite decode_packet_connack, E. auto.
+  - apply publish_ack_roundtrip in H as (u' & r' & ? & ? & E & F); [|lia|assumption].
+    exists u', r'. rewrite decode_packet_puback, E. auto.
+  - apply publish_ack_roundtrip in H as (u' & r' & ? & ? & E & F); [|lia|assumption].
+    exists u', r'. rewrite decode_packet_pubrec, E. auto.
+  - apply publish_ack2_roundtrip in H as (u' & r' & ? & ? & E & F); [|lia|assumption].
+    exists u', r'. rewrite decode_packet_pubrel, E. auto.
+  - apply publish_ack2_roundtrip in H as (u' & r' & ? & ? & E & F); [|lia|assumption].
+    exists u', r'. rewrite decode_packet_pubcomp, E. auto.
+  - apply subscribe_ack_roundtrip in H as (u' & r' & ? & ? & E & F); [|lia|lia|assumption].
+    exists u', r'. rewrite decode_packet_suback, E. auto.
+  - apply unsubscribe_ack_roundtrip in H as (u' & r' & ? & ? & E & F); [|lia|lia|assumption].
+    exists u', r'. rewrite decode_packet_unsuback, E. auto.
+  - apply disconnect_roundtrip in H as (u' & r' & ? & ? & E & F); [|lia|assumption].
+    exists u', r'. rewrite decode_packet_disconnect, E. auto.
+  - apply auth_roundtrip in H as (u' & r' & ? & ? & E & F); [|lia|assumption].
+    exists u', r'. rewrite decode_packet_auth, E. auto.
+Qed.
+
+Lemma is_prefix_of_nil {A} (u : list A) : is_prefix u [] -> u = [].
+Proof. intros [tl E]. destruct u; [reflexivity|discriminate]. Qed.
+
+Lemma strip_diag p :
+  diag_packet_ok p = true ->
+  diag_packet_ok (strip_packet p) = true /\ first_byte (strip_packet p) = first_byte p /\
+  (forall u r, with_diag (strip_packet p) u r = with_diag p u r) /\
+  (forall u, is_prefix u (diag_ups (strip_packet p)) -> is_prefix u (diag_ups p)) /\
+  (forall r, r = diag_reason (strip_packet p) \/ r = None -> r = diag_reason p \/ r = None).
+Proof.
+  destruct p; try discriminate; cbn; intros Hok.
+  1,8: repeat split; auto.
+  all: unfold publish_ack_ok, publish_ack2_ok, subscribe_ack_ok, unsubscribe_ack_ok, auth_ok in *; cbn.
+  all: repeat (apply andb_true_iff in Hok as [Hok ?]).
+  all: split; [repeat (apply andb_true_iff; split); auto|].
+  all: split; [reflexivity|]. all: split; [reflexivity|].
+  all: split; [intros u0 Hu; apply is_prefix_of_nil in Hu; subst; apply is_prefix_nil|].
+  all: intros r0 [-> | ->]; auto.
+Qed.
+
+Lemma encodev_packet_inv c p w c' :
+  encodev c (EPacket p) = ((w, Ok tt), c') ->
+  let q := effective c p in
+  let L := max_size_of c in
+  let sz := packet_encoded_size q L in
+  c' = c /\ sz <= L /\ check_frame_size c sz = Ok tt /\
+  exists body, is_frame (first_byte q) sz w body /\ body_encode q sz = (body, Ok tt) /\ len body = sz.
+Proof.
+  intros H. apply encodev_ok in H. rewrite encode_item_packet in H.
+  destruct (ec_encoding_payload c); [discriminate|]. cbv zeta in *.
+  set (q := effective c p) in *. set (L := max_size_of c) in *.
+  pose proof (max_size_le c) as HL. fold L in HL.
+  destruct (L <? packet_encoded_size q L) eqn:E; [discriminate|].
+  injection H as H <-. apply wlet_inv in H as ([] & Hc & H).
+  apply packet_encode_ok in H as (body & Hf & Hb & Hlen); [|lia|lia].
+  split; [reflexivity|]. split; [lia|]. split; [assumption|]. eauto.
+Qed.
+
+(* C09: for the acknowledgement family, DISCONNECT, AUTH and CONNACK the emitted frame decodes to a packet
+   equal to p except that the user properties are a PREFIX of p's and the reason string is p's or absent *)
+Theorem v5_only_diagnostics_dropped c p w c' :
+  diag_packet_ok p = true ->
+  encodev c (EPacket p) = ((w, Ok tt), c') ->
+  exists body ups' reason',
+    is_frame (first_byte p) (len body) w body /\
+    is_prefix ups' (diag_ups p) /\ (reason' = diag_reason p \/ reason' = None) /\
+    decode_packet (first_byte p) body = Ok (with_diag p ups' reason').
+Proof.
+  intros Hok H. apply encodev_packet_inv in H. cbv zeta in H.
+  destruct H as (_ & Hs & _ & body & Hf & Hb & Hlen).
+  pose proof (max_size_le c) as HL.
+  unfold effective in *. destruct (ec_no_problem_info c).
+  - destruct (strip_diag p Hok) as (Hok' & Hfb & Hwd & Hpre & Hrs).
+    apply diag_core in Hb as (u & r & Hp & Hr & Hd & _); [|assumption|assumption|assumption].
+    exists body, u, r. rewrite Hlen, <- Hfb. split; [assumption|]. split; [auto|]. split; [auto|].
+    now rewrite Hd, Hwd.
+  - apply diag_core in Hb as (u & r & Hp & Hr & Hd & _); [|assumption|assumption|assumption].
+    exists body, u, r. rewrite Hlen. auto.
 Qed.
